@@ -1,0 +1,75 @@
+//! Verification hooks, compiled only with `--features verif`.
+//!
+//! * re-exports of the internal codecs, so that an external harness can compare them with a
+//!   formal model on arbitrary inputs;
+//! * `point`: named scheduling points (lock acquisitions, filesystem calls of the commit path)
+//!   at which an external harness can park a thread and decide who runs next.
+use std::collections::BTreeMap;
+use std::num::NonZeroU64;
+use std::sync::OnceLock;
+
+use crate::index::IndexStateItem;
+use crate::types::{BlobHash, KeyBytes, WalOpRaw};
+
+pub type PointHook = dyn Fn(&'static str) + Send + Sync + 'static;
+static HOOK: OnceLock<Box<PointHook>> = OnceLock::new();
+
+/// Install the scheduling-point hook (once per process).
+pub fn set_point_hook(f: Box<PointHook>) -> bool {
+    HOOK.set(f).is_ok()
+}
+
+#[inline]
+pub(crate) fn point(name: &'static str) {
+    if let Some(h) = HOOK.get() {
+        h(name);
+    }
+}
+
+pub fn serialize_wal_op(op: &WalOpRaw) -> Vec<u8> {
+    crate::serialization::serialize_wal_op_raw(op).expect("infallible")
+}
+
+pub fn deserialize_wal_op(bytes: &[u8]) -> Result<WalOpRaw, String> {
+    crate::serialization::deserialize_wal_op_raw(bytes).map_err(|e| format!("{e:?}"))
+}
+
+pub fn serialize_index<K: KeyBytes + Ord + Clone>(
+    map: &BTreeMap<K, (BlobHash, u64)>,
+    version: Option<NonZeroU64>,
+) -> Vec<u8> {
+    let m: BTreeMap<K, IndexStateItem> = map
+        .iter()
+        .map(|(k, (h, s))| (k.clone(), IndexStateItem { blob_hash: *h, blob_size: *s }))
+        .collect();
+    crate::serialization::serialize_index_state(&m, version)
+}
+
+/// Decoded snapshot: entries in key-byte order, and the snapshot version (0 = none).
+pub type DecodedIndex = (Vec<(Vec<u8>, BlobHash, u64)>, u64);
+
+pub fn deserialize_index(bytes: &[u8]) -> Result<DecodedIndex, String> {
+    crate::serialization::deserialize_index_state(bytes)
+        .map(|(m, v)| {
+            (
+                m.into_iter().map(|(k, it)| (k, it.blob_hash, it.blob_size)).collect(),
+                v.map_or(0, NonZeroU64::get),
+            )
+        })
+        .map_err(|e| format!("{e:?}"))
+}
+
+/// Which of the three index locks are currently held by anybody:
+/// bit 0 = pending_intents, bit 1 = state (shared or exclusive), bit 2 = state exclusive, bit 3 = wal.
+pub fn lock_state<K>(cas: &crate::CasInner<K>) -> u8 {
+    let i = &cas.index;
+    (i.pending_intents.is_locked() as u8)
+        | ((i.state.is_locked() as u8) << 1)
+        | ((i.state.is_locked_exclusive() as u8) << 2)
+        | ((i.wal.is_locked() as u8) << 3)
+}
+
+/// Hashes currently registered as pending intents, by key bytes.
+pub fn pending_intents<K: KeyBytes>(cas: &crate::CasInner<K>) -> Vec<(Vec<u8>, BlobHash)> {
+    cas.index.pending_intents.lock().iter().map(|(k, h)| (k.to_key_bytes_owned(), *h)).collect()
+}
